@@ -643,94 +643,7 @@ func (c *Ctx) inputROFrom(fn *ssa.Function, roots map[ssa.Value]bool, depth int,
 	// alias (comparePreRelease(b, a) and comparePreRelease(a, b))
 	seen[fn] = true
 	defer delete(seen, fn)
-	alias := map[ssa.Value]bool{}
-	for r := range roots {
-		alias[r] = true
-	}
-	changed := true
-	for changed {
-		changed = false
-		mark := func(v ssa.Value) {
-			if !alias[v] {
-				alias[v] = true
-				changed = true
-			}
-		}
-		for _, b := range fn.Blocks {
-			for _, in := range b.Instrs {
-				switch x := in.(type) {
-				case *ssa.MultiConvert:
-					if alias[x.X] {
-						if _, ok := x.Type().Underlying().(*types.Slice); ok {
-							mark(x)
-						}
-					}
-				case *ssa.Convert:
-					if alias[x.X] {
-						if _, ok := x.Type().Underlying().(*types.Slice); ok {
-							if _, ok2 := x.X.Type().Underlying().(*types.Slice); ok2 {
-								mark(x)
-							}
-						}
-					}
-				case *ssa.ChangeType:
-					if alias[x.X] {
-						mark(x)
-					}
-				case *ssa.Slice:
-					if alias[x.X] {
-						if _, ok := x.Type().Underlying().(*types.Basic); !ok { // strings are immutable
-							mark(x)
-						}
-					}
-				case *ssa.Phi:
-					for _, e := range x.Edges {
-						if alias[e] {
-							mark(x)
-						}
-					}
-				case *ssa.Call:
-					if f := x.Call.StaticCallee(); f != nil {
-						name := origin(f).String()
-						if (name == "(*regexp.Regexp).FindSubmatch" || name == "(*regexp.Regexp).FindAllSubmatch" || name == "(*regexp.Regexp).Find") && len(x.Call.Args) > 1 && alias[x.Call.Args[1]] {
-							mark(x) // [][]byte aliasing the subject
-						}
-						if aliasReturning[name] && len(x.Call.Args) > 0 && alias[x.Call.Args[0]] {
-							mark(x)
-						}
-					}
-				case *ssa.IndexAddr:
-					if alias[x.X] {
-						if _, ok := x.Type().Underlying().(*types.Pointer).Elem().Underlying().(*types.Slice); ok {
-							mark(x) // &parts[k] : pointer to aliasing slice
-						}
-					}
-				case *ssa.UnOp:
-					if x.Op == token.MUL && alias[x.X] {
-						mark(x)
-					}
-				case *ssa.TypeAssert: // src.([]byte) of an interface-typed input (Scan): the caller's bytes
-					if alias[x.X] {
-						mark(x)
-					}
-				case *ssa.Extract:
-					if ta, ok := x.Tuple.(*ssa.TypeAssert); ok && alias[ta] && x.Index == 0 {
-						if _, isSlice := x.Type().Underlying().(*types.Slice); isSlice {
-							mark(x)
-						}
-					}
-				case *ssa.Store:
-					// a local variable that lives in a cell (captured by a closure, or address taken): the cell then
-					// points to a slice sharing the input's bytes, and every load of it is such a slice
-					if a, ok := x.Addr.(*ssa.Alloc); ok && alias[x.Val] {
-						if _, isSlice := x.Val.Type().Underlying().(*types.Slice); isSlice {
-							mark(a)
-						}
-					}
-				}
-			}
-		}
-	}
+	alias := c.aliasClosure(fn, roots, depth)
 	// closures see the captured cells and values
 	for _, b := range fn.Blocks {
 		for _, in := range b.Instrs {
@@ -1249,4 +1162,124 @@ func (c *Ctx) carrierRetainedAt(fn *ssa.Function, alias map[ssa.Value]bool, dept
 			}
 		}
 	}
+}
+
+// aliasClosure: the values of fn that share bytes with one of roots (the fixpoint inputROFrom works on). The result
+// of a function of the module that is handed such a value, and may return it or a part of it, is one too.
+func (c *Ctx) aliasClosure(fn *ssa.Function, roots map[ssa.Value]bool, depth int) map[ssa.Value]bool {
+	alias := map[ssa.Value]bool{}
+	for r := range roots {
+		alias[r] = true
+	}
+	changed := true
+	for changed {
+		changed = false
+		mark := func(v ssa.Value) {
+			if !alias[v] {
+				alias[v] = true
+				changed = true
+			}
+		}
+		for _, b := range fn.Blocks {
+			for _, in := range b.Instrs {
+				switch x := in.(type) {
+				case *ssa.MultiConvert:
+					if alias[x.X] {
+						if _, ok := x.Type().Underlying().(*types.Slice); ok {
+							mark(x)
+						}
+					}
+				case *ssa.Convert:
+					if alias[x.X] {
+						if _, ok := x.Type().Underlying().(*types.Slice); ok {
+							if _, ok2 := x.X.Type().Underlying().(*types.Slice); ok2 {
+								mark(x)
+							}
+						}
+					}
+				case *ssa.ChangeType:
+					if alias[x.X] {
+						mark(x)
+					}
+				case *ssa.Slice:
+					if alias[x.X] {
+						if _, ok := x.Type().Underlying().(*types.Basic); !ok { // strings are immutable
+							mark(x)
+						}
+					}
+				case *ssa.Phi:
+					for _, e := range x.Edges {
+						if alias[e] {
+							mark(x)
+						}
+					}
+				case *ssa.Call:
+					if f := x.Call.StaticCallee(); f != nil {
+						name := origin(f).String()
+						if (name == "(*regexp.Regexp).FindSubmatch" || name == "(*regexp.Regexp).FindAllSubmatch" || name == "(*regexp.Regexp).Find") && len(x.Call.Args) > 1 && alias[x.Call.Args[1]] {
+							mark(x) // [][]byte aliasing the subject
+						}
+						if aliasReturning[name] && len(x.Call.Args) > 0 && alias[x.Call.Args[0]] {
+							mark(x)
+						}
+						// a helper of the module that returns (a part of) what it was handed: `trimmed(input)`
+						if g := origin(f); inRepo(g) && len(g.Blocks) > 0 && depth < 4 && !alias[x] {
+							for ai, a := range x.Call.Args {
+								if !alias[a] || ai >= len(g.Params) {
+									continue
+								}
+								if _, isStr := a.Type().Underlying().(*types.Basic); isStr {
+									continue
+								}
+								sub := c.aliasClosure(g, map[ssa.Value]bool{g.Params[ai]: true}, depth+1)
+								for _, gb := range g.Blocks {
+									if ret, ok := gb.Instrs[len(gb.Instrs)-1].(*ssa.Return); ok {
+										for _, rv := range ret.Results {
+											if sub[rv] {
+												mark(x)
+											}
+										}
+									}
+								}
+							}
+						}
+					}
+				case *ssa.IndexAddr:
+					if alias[x.X] {
+						if _, ok := x.Type().Underlying().(*types.Pointer).Elem().Underlying().(*types.Slice); ok {
+							mark(x) // &parts[k] : pointer to aliasing slice
+						}
+					}
+				case *ssa.UnOp:
+					if x.Op == token.MUL && alias[x.X] {
+						mark(x)
+					}
+				case *ssa.TypeAssert: // src.([]byte) of an interface-typed input (Scan): the caller's bytes
+					if alias[x.X] {
+						mark(x)
+					}
+				case *ssa.Extract:
+					if cl, ok := x.Tuple.(*ssa.Call); ok && alias[cl] {
+						if _, isSlice := x.Type().Underlying().(*types.Slice); isSlice {
+							mark(x)
+						}
+					}
+					if ta, ok := x.Tuple.(*ssa.TypeAssert); ok && alias[ta] && x.Index == 0 {
+						if _, isSlice := x.Type().Underlying().(*types.Slice); isSlice {
+							mark(x)
+						}
+					}
+				case *ssa.Store:
+					// a local variable that lives in a cell (captured by a closure, or address taken): the cell then
+					// points to a slice sharing the input's bytes, and every load of it is such a slice
+					if a, ok := x.Addr.(*ssa.Alloc); ok && alias[x.Val] {
+						if _, isSlice := x.Val.Type().Underlying().(*types.Slice); isSlice {
+							mark(a)
+						}
+					}
+				}
+			}
+		}
+	}
+	return alias
 }
